@@ -732,7 +732,13 @@ func Mutate(r *rand.Rand, root *V, name string) (*V, bool) {
 					if len(last.El) < 2 || last.El[0].Kind != 'n' {
 						continue
 					}
-					last.El[r.Intn(2)] = num("123.25")
+					k := r.Intn(2)
+					if f, err := strconv.ParseFloat(last.El[k].Num, 64); err == nil && r.Intn(2) == 0 {
+						// a near miss: the closing position is only slightly off
+						last.El[k] = num(strconv.FormatFloat(f+[]float64{0.5, -0.5, 1, -1, 2.5, 0.125}[r.Intn(6)], 'f', -1, 64))
+					} else {
+						last.El[k] = num("123.25")
+					}
 					ring.El[len(ring.El)-1] = last
 				}
 				return c, true
